@@ -1595,3 +1595,12 @@ class ApplicationEntity:
         invalid = [ii for ii in contexts if not isinstance(ii, PresentationContext)]
         if invalid:
             raise ValueError("'contexts' must be a list of PresentationContext items")
+
+        incomplete = [
+            ii for ii in contexts if not ii.abstract_syntax or not ii.transfer_syntax
+        ]
+        if incomplete:
+            raise ValueError(
+                "Each requested presentation context must have an abstract "
+                "syntax and at least one transfer syntax"
+            )
